@@ -7,7 +7,15 @@ Hermitian matrices, so every clause that is linear in the initial state is decid
 initial states), "mix" cases propagate all pairwise equal mixtures of these states.
 
   closed    no relaxation: ReducedDensityMatrixPropagator and StateVectorPropagator, lab frame
-            and rotating frame (set_rwa + convert_from_RWA)
+            and rotating frame (set_rwa + convert_from_RWA).  Initial state vectors: the dim^2
+            spanning states PLUS the complete phase family (all amplitudes non-zero, phases from
+            the full product SV_PHASES^dim, a common phase included).  Every state-vector
+            evolution is turned into density matrices through EVERY public route
+            (StateVectorEvolution.get_DensityMatrixEvolution, StateVector.get_DensityMatrix at
+            every stored time, the stored initial StateVector), in the frame of the calculation
+            and again after convert_from_RWA; every route must give |psi(t_i)><psi(t_i)| of the
+            stored vectors at EVERY stored index (index 0 included, class R), be Hermitian, have
+            trace one within the norm bound and agree with the density-matrix propagator.
   lindblad  LindbladForm generators (operator form / tensor form / converted), RWA on/off
   deph      LindbladForm + PureDephasing (Lorentzian / Gaussian)
   redfield  (TD)RedfieldRelaxationTensor of a built dimer/trimer (operator / tensor / secular
@@ -54,6 +62,9 @@ RWA_BLOCKS = {"ge": [0, 1], "one": [0], "ge2": [0, 1, 3]}
 JUMP_C = (0.8, 0.16)                 # jump rates * T
 DEPH_L = (0.0, 0.8, 1.6, 1.2)        # Lorentzian site dephasing rates * T
 DEPH_G = (0.0, 3.0, 5.0, 4.0)        # Gaussian site dephasing constants * T^2
+SV_PHASES = (0.0, 2.1, -0.9)         # phase alphabet of the complex-amplitude state vectors (rad)
+SV_MODULI = (1.0, 0.8, 0.6, 0.5)     # their (unnormalised) moduli, all non-zero and distinct
+SV_ROUTES = ("evolution", "statevector")
 
 
 def all_unit_sets(d, maxsize=2):
@@ -231,6 +242,56 @@ def propagate_sv(case, ta, ham, psi0):
     return pr.propagate(StateVector(data=numpy.array(psi0, dtype=complex)), L=case["order"])
 
 
+def sv_routes(sev):
+    """Every public route from a state-vector evolution to density matrices.  Returns
+    ({route: array (Nt, d, d)}, the derived DensityMatrixEvolution object, rho of the stored
+    initial StateVector)."""
+    from quantarhei import StateVector
+    sd = numpy.array(sev.data, copy=True)
+    nt, d = sd.shape
+    dme = sev.get_DensityMatrixEvolution()
+    out = {"evolution": numpy.array(dme.data, copy=True)}
+    arr = numpy.zeros((nt, d, d), dtype=complex)
+    for i in range(nt):
+        arr[i] = StateVector(data=numpy.array(sd[i], dtype=complex)).get_DensityMatrix().data
+    out["statevector"] = arr
+    ini = numpy.array(sev.psi_i.get_DensityMatrix().data, copy=True)
+    return out, dme, ini
+
+
+def check_sv_routes(book, tag, lab, routes, svdata, dmref, tol_T, tol_norm, inform_T):
+    """routes[r][i] must be |psi_i><psi_i| of the stored vectors svdata[i] (class R, every stored
+    index), Hermitian (class R), of trace one within the norm bound, and agree with the
+    density-matrix propagation dmref within the sum of both truncation bounds (zero at index 0)."""
+    proj = numpy.einsum("ti,tj->tij", svdata, svdata.conj())
+    sc = max(1.0, float(numpy.max(numpy.abs(proj))))
+    for r in SV_ROUTES:
+        arr = numpy.asarray(routes[r])
+        if arr.shape != proj.shape or not numpy.all(numpy.isfinite(arr)):
+            book.check("sv-route", "sv-route/%s/not-psi-psi-dagger/%s" % (r, tag), [numpy.inf],
+                       RTOL, "density matrices derived from a state-vector evolution (route %s) "
+                       "have shape %r / non-finite entries (state %s)" % (r, arr.shape, lab),
+                       {"state": lab})
+            continue
+        book.check("sv-route", "sv-route/%s/not-psi-psi-dagger/%s" % (r, tag),
+                   numpy.max(numpy.abs(arr - proj), axis=(1, 2)), RTOL * sc,
+                   "density matrix derived from the state-vector evolution (route %s) is not "
+                   "|psi><psi| of the stored state vector (state %s)" % (r, lab), {"state": lab})
+        he = numpy.max(numpy.abs(arr - numpy.conj(numpy.transpose(arr, (0, 2, 1)))), axis=(1, 2))
+        book.check("hermiticity", "hermiticity/%s/sv-route=%s" % (tag, r), he, RTOL * sc,
+                   "density matrix derived from the state-vector evolution (route %s) is not "
+                   "Hermitian (state %s)" % (r, lab), {"state": lab})
+        tr = numpy.abs(numpy.trace(arr, axis1=1, axis2=2) - 1.0)
+        book.check("trace", "trace/%s/sv-route=%s" % (tag, r), tr, tol_norm,
+                   "trace of the density matrix derived from the state-vector evolution (route "
+                   "%s) differs from 1 by more than the norm bound (state %s)" % (r, lab),
+                   {"state": lab}, informative=inform_T)
+        book.check("sv-vs-dm", "sv-vs-dm/%s/sv-route=%s" % (tag, r), _fro(arr - dmref), tol_T,
+                   "density matrix derived from the state-vector evolution (route %s) differs "
+                   "from the density-matrix propagator by more than the sum of both truncation "
+                   "bounds (state %s)" % (r, lab), {"state": lab}, informative=inform_T)
+
+
 # ---------------------------------------------------------------------------------------------
 # clause bookkeeping
 # ---------------------------------------------------------------------------------------------
@@ -330,6 +391,11 @@ def eval_closed(case):
     d, Nt, dt = m["d"], m["Nt"], m["dt"]
     book = Book()
     labels, psis, rhos = _states(case, d)
+    # complex-amplitude state vectors: complete phase family (after the spanning set)
+    glabels, gpsis = G.phase_family(d, SV_PHASES, SV_MODULI)
+    labels = list(labels) + glabels
+    psis = list(psis) + gpsis
+    rhos = list(rhos) + [G.projector(p) for p in gpsis]
     vecs0 = [r.reshape(-1) for r in rhos]
     rwa = case["rwa"] != "off"
     tag = _tag(case)
@@ -483,6 +549,17 @@ def eval_closed(case):
                    "|psi><psi| of the state-vector propagator differs from the density-matrix "
                    "propagator by more than the sum of both truncation bounds (state %s)" % lab,
                    {"state": lab}, informative=(b_svdm[-1] + b_dm[-1]) <= INFORMATIVE)
+        # every public route state-vector evolution -> density matrices, frame of the calculation
+        tol_route = 2.0 * (b_svdm + b_dm) + RTOL
+        tol_norm = 2.0 * (2.0 * b_sv + b_sv ** 2) + RTOL
+        inf_route = bool((b_svdm[-1] + b_dm[-1]) <= INFORMATIVE)
+        routes, dme, ini = sv_routes(sev)
+        check_sv_routes(book, tag + "/raw", lab, routes, sraw, raw, tol_route, tol_norm, inf_route)
+        book.check("sv-route", "sv-route/initial-statevector/not-psi-psi-dagger/%s" % tag,
+                   [float(numpy.max(numpy.abs(ini - rho0)))] if ini.shape == rho0.shape
+                   else [numpy.inf], RTOL,
+                   "get_DensityMatrix() of the initial StateVector kept by the evolution is not "
+                   "|psi0><psi0| (state %s)" % lab, {"state": lab})
         if rwa:
             try:
                 flagged = bool(sev.is_in_rwa)
@@ -492,8 +569,28 @@ def eval_closed(case):
                 book.check("rwa-sv", "rwa/sv/flag-not-set", [1.0], 0.0,
                            "state-vector evolution computed with an RWA Hamiltonian is not "
                            "flagged is_in_rwa")
+            # the density-matrix evolution derived from a rotating-frame state-vector evolution
+            # holds rotating-frame data: it has to say so, and convert back like the original
+            if flagged:
+                if not bool(getattr(dme, "is_in_rwa", False)):
+                    book.check("rwa-sv", "rwa/sv-derived-dm/flag-not-carried-over", [1.0], 0.0,
+                               "get_DensityMatrixEvolution() of a state-vector evolution that "
+                               "is_in_rwa returns rotating-frame data flagged is_in_rwa=False "
+                               "(convert_from_RWA on it silently does nothing)")
+                else:
+                    dme.convert_from_RWA(ham)
+                    book.check("rwa-sv", "rwa/sv-derived-dm/vs-library-converted",
+                               _fro(numpy.array(dme.data) - conv), tol_route,
+                               "density-matrix evolution derived from an RWA state-vector "
+                               "evolution and converted by convert_from_RWA differs from the "
+                               "converted density-matrix propagation (state %s)" % lab,
+                               {"state": lab}, informative=inf_route)
             sev.convert_from_RWA(ham)
             sconv = numpy.array(sev.data, copy=True)
+            # the same routes again from the converted (laboratory frame) state-vector evolution
+            routes, _, _ = sv_routes(sev)
+            check_sv_routes(book, tag + "/converted", lab, routes, sconv, conv, tol_route,
+                            tol_norm, inf_route)
             psi_lab = numpy.zeros((Nt, d), dtype=complex)
             psi_lab[0] = psi0
             for i in range(1, Nt):
@@ -519,7 +616,8 @@ def eval_closed(case):
     nontrivial = (coupled or distinct) and bool(b_dm[-1] <= INFORMATIVE)
     return {"nontrivial": nontrivial,
             "outcome": [tag, digest, "%.2e" % b_dm[-1]],
-            "violations": book.violations(), "n": len(labels) * (4 if rwa else 2) - 1,
+            # propagations (dm, sv [, lab dm, lab sv]) + route evaluations (raw [, converted])
+            "violations": book.violations(), "n": len(labels) * (6 if rwa else 3) - 1,
             "info": {"worst": book.worst, "sec": "closed", "informative": nontrivial}}
 
 
@@ -814,13 +912,19 @@ def run(run):
                 "pairwise mixtures | Redfield) over dimension x Hamiltonian x scale x time axis x "
                 "generator x representation x pure dephasing x RWA x expansion order x Nref; "
                 "inside every case ALL dim^2 spanning pure states (or all their pairwise equal "
-                "mixtures) are propagated on fresh propagators.  RWA cases are in the product only "
+                "mixtures) are propagated on fresh propagators; closed cases additionally propagate "
+                "the complete phase family of complex-amplitude state vectors (moduli %r, phases "
+                "from the full product %r^dim) and turn every state-vector evolution into density "
+                "matrices through every public route (get_DensityMatrixEvolution, "
+                "StateVector.get_DensityMatrix at every stored time, stored initial StateVector), "
+                "before and after convert_from_RWA, checked at every stored index incl. 0.  "
+                "RWA cases are in the product only "
                 "when [L, ad_Omega] = 0 (rotating-frame calculation is exact).  non-trivial = the "
                 "generator acts (coupling or >= 2 distinct energies for closed systems, a non-zero "
                 "jump/dephasing rate otherwise) AND the a-priori truncation bound at the final "
                 "time is <= %g (so the T-class oracle discriminates); Redfield cases (class R "
                 "clauses only) are all non-trivial; unbuildable configurations are trivial"
-                % INFORMATIVE)
+                % (SV_MODULI, SV_PHASES, INFORMATIVE))
     run.assumptions = [
         "reference: GKSL Liouvillian from Kronecker products, scipy.linalg.expm "
         "(mc/refmodels/gksl.py); Gaussian dephasing reference = 4th order Magnus, 4 sub-steps, own "
@@ -837,6 +941,7 @@ def run(run):
                   "orders": [2, 4, 6], "nref": NREFS,
                   "axes(Nt,dt)": [AX_SHORT] if run.tier == "quick" else [AX_SHORT, AX_LONG],
                   "norm(H)*dt": "<= 0.5 (scales 1, 0.25%s)" % ("" if run.tier == "quick" else ", 0.5"),
+                  "sv phase alphabet": list(SV_PHASES), "sv routes": list(SV_ROUTES) + ["psi_i"],
                   "cases": len(cs)}
     infos = run_grid(run, cs, eval_case)
     worst, unb, secs = {}, {}, {}
